@@ -635,6 +635,79 @@ fn subst_name(t: &str, name: &str) -> String {
     out
 }
 
+/// Compact spelling: the spaces the canonical text puts around symbol operators are optional layout. Only joints that
+/// cannot form another token are used: the left operand ends in a name / digit / closing bracket / postfix `!`, the right
+/// one starts with a name / digit / opening bracket / quote, and operators whose first character could extend the left
+/// token (`!=` after anything, `-` `.`-operators) are left out.
+fn part_compact(ctx: &Ctx, sink: &mut Sink) {
+    if ctx.shard_i != 0 {
+        return;
+    }
+    let ops: [(&str, Op); 13] = [
+        ("+", Op::Add), ("*", Op::Mul), ("/", Op::Div), ("%", Op::Mod), ("^", Op::Pow), ("==", Op::Eq), ("<", Op::Lt), (">", Op::Gt), ("<=", Op::Le), (">=", Op::Ge),
+        ("??", Op::Coal), ("&&", Op::And), ("||", Op::Or),
+    ];
+    let lefts: Vec<H> = vec![
+        id("n"), H::Num(F(24.0)), H::Num(F(1.5)), call(id("f"), vec![H::Num(F(3.0))]), H::Index(Box::new(id("xs")), Box::new(H::Num(F(0.0)))), H::Fact(Box::new(id("n"))),
+        H::Fact(Box::new(H::Num(F(3.0)))), H::Fact(Box::new(call(id("f"), vec![id("x")]))), H::Field(Box::new(id("r")), "k".into()), H::List(vec![H::Num(F(1.0))]),
+    ];
+    let rights: Vec<H> = vec![id("m"), H::Num(F(24.0)), H::Num(F(0.5)), call(id("g"), vec![id("y")]), H::List(vec![H::Num(F(2.0))]), H::Str("s".into())];
+    for (sym, op) in ops.iter() {
+        for l in lefts.iter() {
+            for r in rights.iter() {
+                let tree = bin(*op, l.clone(), r.clone());
+                let spaced = print_min(&tree);
+                let compact = format!("{}{}{}", print_min(l), sym, print_min(r));
+                sink.case(&format!("compact|{}", compact), true);
+                match (parse1(&spaced), parse1(&compact)) {
+                    (Ok(a), Ok(b)) if a == b => {}
+                    (Ok(_), other) => sink.viol(
+                        &format!("layout compact-operator op={}", sym),
+                        "leaving out the optional spaces around a symbol operator changes the parsed program",
+                        json!({"with_spaces": spaced, "without_spaces": compact, "without_spaces_parses_as": match other { Ok(b) => print_full(&b), Err(e) => format!("parse error: {}", e.chars().take(120).collect::<String>()) }}),
+                    ),
+                    (Err(_), _) => {}
+                }
+                // and inside a longer chain
+                for (sym2, op2) in [("+", Op::Add), ("==", Op::Eq), ("&&", Op::And)] {
+                    let t3 = bin(op2, tree.clone(), id("z"));
+                    let spaced3 = print_min(&t3);
+                    // the minimal printer decides the parentheses; only the spaces are removed
+                    let compact3: String = {
+                        let mut out = String::new();
+                        let cs: Vec<char> = spaced3.chars().collect();
+                        let mut i = 0;
+                        while i < cs.len() {
+                            let two = sym.len() == 2 && i + 3 < cs.len() && cs[i] == ' ' && cs[i + 1..].starts_with(&sym.chars().collect::<Vec<_>>()[..]) && cs[i + 1 + sym.len()] == ' ';
+                            let one = sym.len() == 1 && i + 2 < cs.len() && cs[i] == ' ' && cs[i + 1] == sym.chars().next().unwrap() && cs[i + 2] == ' ';
+                            if two || one {
+                                out.push_str(sym);
+                                i += 2 + sym.len();
+                            } else {
+                                out.push(cs[i]);
+                                i += 1;
+                            }
+                        }
+                        out
+                    };
+                    if compact3 == spaced3 || sym2.is_empty() {
+                        continue;
+                    }
+                    if let (Ok(a), got) = (parse1(&spaced3), parse1(&compact3)) {
+                        if got.as_ref().ok() != Some(&a) {
+                            sink.viol(
+                                &format!("layout compact-operator op={}", sym),
+                                "leaving out the optional spaces around a symbol operator changes the parsed program",
+                                json!({"with_spaces": spaced3, "without_spaces": compact3, "without_spaces_parses_as": match got { Ok(b) => print_full(&b), Err(e) => format!("parse error: {}", e.chars().take(120).collect::<String>()) }}),
+                            );
+                        }
+                    }
+                }
+            }
+        }
+    }
+}
+
 /// Statement separation: a program is its statements, one per line. Parsing the whole text gives exactly the trees the
 /// statements give when parsed alone (only statements that start with a letter are joined: a line that starts with an
 /// operator continues the line before it by design).
@@ -688,6 +761,9 @@ pub fn run(ctx: &Ctx, sink: &mut Sink) {
     let part = ctx.opt("part").unwrap_or("all").to_string();
     if part == "all" || part == "separation" {
         part_separation(ctx, sink);
+    }
+    if part == "all" || part == "compact" {
+        part_compact(ctx, sink);
     }
     if part == "all" || part == "table" {
         part_table(ctx, sink);
